@@ -132,6 +132,17 @@ fn eval(ctx: &Ctx, case: &Case) -> Verdict {
     let (r3, a3) = run_create(ctx, &dir, "c09", &case.cs, &case.container, &opts(&flipped), Transport::Path);
     ensure!(r3.code == base.code && r3.stdout == base.stdout, "--samples and --samples-file with the same content differ: `sfs {}`: {} vs `sfs {}`: {}", argv.join(" "), base.describe(), a3.join(" "), r3.describe());
 
+    // (iii-b) the same samples file without a final newline, and with CRLF line endings
+    {
+        let input = format!("c09.{}", case.container.ext());
+        let text = case.map.file_text(&case.cs);
+        for (what, content) in [("without a final newline", text.trim_end_matches('\n').to_string()), ("with CRLF line endings", text.replace('\n', "\r\n"))] {
+            std::fs::write(dir.join("c09v.samples"), content).expect("write");
+            let r = cli::sfs(ctx, &["create", "-S", "c09v.samples", &input], cli::Input::Null, &dir);
+            ensure!(r.code == base.code && r.stdout == base.stdout, "the samples file {what} gives a different result than the inline list `{}`: {} vs {}", case.map.inline_arg(&case.cs), r.describe(), base.describe());
+        }
+    }
+
     // (iv) a permutation that changes the label order permutes the axes correspondingly
     let changed = order_changing_permutation(&case.map, &case.draws);
     let (r4, a4) = run_create(ctx, &dir, "c09", &case.cs, &case.container, &opts(&changed), Transport::Path);
